@@ -1,6 +1,8 @@
 package mon
 
 import (
+	"unicode"
+	"unicode/utf8"
 	"math/rand/v2"
 	"regexp"
 	"strings"
@@ -302,12 +304,21 @@ func isBlank(b byte) bool {
 // nor ends with white space or '/'), where the documentation fixes the normal form.
 // Only ASCII white space is considered; callers do not use other blanks.
 func RefNormalize(s string, strict bool) (string, bool) {
+	// white space is what Unicode calls white space (U+0085, U+00A0, U+2028, U+3000 ... too), rune by rune
 	i, j := 0, len(s)
-	for i < j && isBlank(s[i]) {
-		i++
+	for i < j {
+		c, n := utf8.DecodeRuneInString(s[i:j])
+		if !unicode.IsSpace(c) {
+			break
+		}
+		i += n
 	}
-	for j > i && isBlank(s[j-1]) {
-		j--
+	for j > i {
+		c, n := utf8.DecodeLastRuneInString(s[i:j])
+		if !unicode.IsSpace(c) {
+			break
+		}
+		j -= n
 	}
 	t := s[i:j]
 	a, b := 0, len(t)
@@ -321,7 +332,9 @@ func RefNormalize(s string, strict bool) (string, bool) {
 	if core == "" {
 		return "/", true
 	}
-	if isBlank(core[0]) || isBlank(core[len(core)-1]) {
+	first, _ := utf8.DecodeRuneInString(core)
+	last, _ := utf8.DecodeLastRuneInString(core)
+	if unicode.IsSpace(first) || unicode.IsSpace(last) {
 		return "", false
 	}
 	if strict {
@@ -488,7 +501,9 @@ var pathAlphabet = []string{"a", "b", "ab", "x.y", "v1.0", "1", "22", "abc", "xa
 // MutatePath applies one small mutation to a path.
 func MutatePath(r *rand.Rand, path string) string {
 	segs := strings.Split(strings.TrimPrefix(path, "/"), "/")
-	switch r.IntN(9) {
+	switch r.IntN(10) {
+	case 9: // trailing white space that is not ASCII (insignificant like a blank), also behind trailing slashes
+		return path + pick(r, []string{"", "", "/", "//"}) + pick(r, []string{"\u00a0", "\u2028", "\u3000", "\u0085", "\u2003 ", " \u00a0"})
 	case 0: // drop a segment
 		if len(segs) > 1 {
 			i := r.IntN(len(segs))
